@@ -433,6 +433,8 @@ func c20Bool(x *mc.X) *mc.Outcome {
 	return out
 }
 
+var c20Now = time.Now()
+
 func c20Time(x *mc.X) *mc.Outcome {
 	zh.Reset()
 	zh.Install(x, zh.PoolLIFO, zh.OrderSorted)
@@ -440,16 +442,31 @@ func c20Time(x *mc.X) *mc.Outcome {
 	t0 := time.Date(2024, 3, 10, 12, 0, 0, 500, time.UTC)
 	mode := x.Choose(2, "mode")
 	ti := x.Choose(3, "test")
-	pz := x.Choose(2, "paramzone")
+	pz := x.Choose(3, "paramzone")
 	d := x.Choose(5, "delta")
-	sz := x.Choose(2, "subjzone")
+	sz := x.Choose(3, "subjzone")
+	// zone 2: values derived from time.Now() carry a monotonic clock reading and the Local location;
+	// the other side of the comparison is the same instant without it
+	if pz == 2 || sz == 2 {
+		t0 = c20Now
+	}
 	param := t0
-	if pz == 1 {
+	switch pz {
+	case 1:
 		param = t0.In(plus2)
+	case 2:
+		param = c20Now
+	default:
+		param = t0.Round(0).UTC()
 	}
 	subj := t0.Add(time.Duration([]int64{-1, 0, 1, -int64(time.Hour * 2), int64(time.Hour * 2)}[d]))
-	if sz == 1 {
+	switch sz {
+	case 1:
 		subj = subj.In(plus2)
+	case 2:
+		// keeps the monotonic reading
+	default:
+		subj = subj.Round(0).UTC()
 	}
 	var s *z.TimeSchema
 	var want bool
@@ -488,7 +505,7 @@ func c20Time(x *mc.X) *mc.Outcome {
 		dest = subj
 		issues = s.Validate(&dest)
 	}
-	return c20Check("Time."+name, []string{"Parse", "Validate"}[mode], fmt.Sprintf("%s (param %s)", subj.Format(time.RFC3339Nano), param.Format(time.RFC3339Nano)), false, want, code, issues, dest)
+	return c20Check("Time."+name, []string{"Parse", "Validate"}[mode], fmt.Sprintf("delta#%d subject zone#%d (param zone#%d; zone 2 = time.Now() with monotonic reading)", d, sz, pz), false, want, code, issues, dest)
 }
 
 func c20Slice(x *mc.X) *mc.Outcome {
@@ -646,9 +663,9 @@ func init() {
 		Floor: 100,
 		Bound: func(tier string) string {
 			if tier == "thorough" {
-				return "general strings ≤4 symbols over 24-symbol boundary alphabet (ASCII class edges, multi-byte letters/digits, non-ASCII punctuation and symbols); email/url grammar strings ≤7 symbols; uuid: all single and double substitutions, insertions, deletions; numeric n×v over boundary sets of all 5 types; time ±1ns in 2 zones; slices len 0..3"
+				return "general strings ≤4 symbols over 24-symbol boundary alphabet (ASCII class edges, multi-byte letters/digits, non-ASCII punctuation and symbols); email/url grammar strings ≤7 symbols; uuid: all single and double substitutions, insertions, deletions; numeric n×v over boundary sets of all 5 types; time ±1ns in 2 zones and against values carrying a monotonic clock reading; slices len 0..3"
 			}
-			return "general strings ≤3 symbols over 24-symbol boundary alphabet (ASCII class edges, multi-byte letters/digits, non-ASCII punctuation and symbols); email/url grammar strings ≤5 symbols; uuid: all single substitutions, insertions, deletions; numeric n×v over boundary sets of all 5 types; time ±1ns in 2 zones; slices len 0..3"
+			return "general strings ≤3 symbols over 24-symbol boundary alphabet (ASCII class edges, multi-byte letters/digits, non-ASCII punctuation and symbols); email/url grammar strings ≤5 symbols; uuid: all single substitutions, insertions, deletions; numeric n×v over boundary sets of all 5 types; time ±1ns in 2 zones and against values carrying a monotonic clock reading; slices len 0..3"
 		},
 		Assumptions: []string{
 			"reference predicates are the documented ones (len() in bytes, Go comparisons, strings.*, ASCII classes, stated grammars); URL reference uses net/url itself (scheme and host non-empty)",
